@@ -91,7 +91,7 @@ def scoped_to(t, o):
     k = o["op"]
     if k in ("retemp", "prepare"):
         return o["t"] == t
-    if k in ("add", "goc", "goi", "pkg", "cexists", "iexists", "new", "newshort", "callfn", "newchild"):
+    if k in ("add", "goc", "goi", "pkg", "cexists", "iexists", "new", "newshort", "callfn", "newchild", "callcall"):
         return o["vm"] == t
     return False
 
@@ -117,6 +117,9 @@ def coq_ops(ops):
             out.append("XO ONewTemp")
         elif o["op"] == "req_end":
             out.append("XO (ODiscard %d)" % cur)
+        elif o["op"] == "callcall":
+            # a base function body calling the function named N, run on the VM: a pure function lookup on that VM
+            out.append("XCallFn %s %s" % (coq_vm(o["vm"]), coq_string(o["name"])))
         elif o["op"] == "newshort":
             # `namespace NS; new Short()` on the VM: which full name it stands for is computed by the model (ShortNames.v)
             out.append("XNewShort %s %s %s" % (coq_vm(o["vm"]), coq_string(o["ns"]), coq_string(o["name"])))
@@ -207,8 +210,11 @@ def run_impl(binary, cases):
     return vworker.run_worker([binary], cases, per_case_timeout=60), 0, ""
 
 
-def mk(ops, names=LOOK, consts=CONSTS, shared=None, gc=False, callbacks=None):
+def mk(ops, names=LOOK, consts=CONSTS, shared=None, gc=False, callbacks=None, sharedfn=None):
     c = {"names": names, "consts": consts, "cp": CP, "ops": ops}
+    if sharedfn:
+        c["sharedfn"] = sharedfn
+        c["scripts"] = True
     if callbacks:
         c["callbacks"] = callbacks
     if shared:
@@ -216,7 +222,7 @@ def mk(ops, names=LOOK, consts=CONSTS, shared=None, gc=False, callbacks=None):
         c["scripts"] = True
     if gc:
         c["gc"] = True
-    if any(o["op"] in ("cexists", "iexists", "new", "newshort", "callfn", "newchild") or o.get("route") == "eval" for o in ops):
+    if any(o["op"] in ("cexists", "iexists", "new", "newshort", "callfn", "newchild", "callcall") or o.get("route") == "eval" for o in ops):
         c["scripts"] = True
     return c
 
@@ -516,6 +522,43 @@ def main(ck):
                     ops += [{"op": "req_begin"}] + ([{"op": "add", "vm": t, "kind": "c", "name": "Theme", "file": 0, "route": "parse"}] if t != 1 else []) + \
                            [{"op": use, "vm": t, "name": "Theme"}, {"op": "req_end"}]
                 cases.append((mk(fresh(ops), names=SHNAMES, consts=["K"], shared=["Theme", "Tint"], gc=True), 0))
+        # the function side of the shared-code family: the base defines c12call_tf() { return tf(); } (tf undefined when the
+        # body is parsed: a late-bound call node in a shared AST); tf is defined per VM, returning its definition's marker
+        FNNAMES = ["tf", "tg", "A"]
+
+        def fn_alpha(vms):
+            a = []
+            for v in [-1] + list(vms):
+                a += [{"op": "callcall", "vm": v, "name": "tf"}, {"op": "callcall", "vm": v, "name": "tg"},
+                      {"op": "add", "vm": v, "kind": "f", "name": "tf", "file": 0, "route": rng.choice(["parse", "parsefile", "include", "cond", "infunc"])},
+                      {"op": "add", "vm": v, "kind": "f", "name": "tg", "file": 0, "route": "parse"}]
+            return a
+        for x in (-1, 0, 1, 2):
+            for y in (-1, 0, 1, 2):
+                if x == y:
+                    continue
+                for ydef in (True, False):
+                    ops = pre + [{"op": "newtemp"}, {"op": "add", "vm": x, "kind": "f", "name": "tf", "file": 0, "route": "parse"}, {"op": "callcall", "vm": x, "name": "tf"}] + \
+                          ([{"op": "add", "vm": y, "kind": "f", "name": "tf", "file": 0, "route": "parse"}] if ydef else []) + \
+                          [{"op": "callcall", "vm": y, "name": "tf"}, {"op": "callcall", "vm": x, "name": "tf"}]
+                    ops = fresh(ops)
+                    t = x if x >= 0 else y
+                    cases.append((mk(ops, names=FNNAMES, consts=["K"], sharedfn=["tf", "tg"]), t if t >= 0 and any(scoped_to(t, o) for o in ops) else None))
+        for _ in range(200 if ck.tier == "quick" else 3000):
+            al = fn_alpha((0, 1, 2))
+            ops = pre + [{"op": "newtemp"}] + [rng.choice(al) for _ in range(rng.randint(3, 9))]
+            if rng.random() < 0.3:
+                k = rng.randrange(3, len(ops))
+                ops[k:k] = [{"op": "discard", "t": rng.randrange(3)}, {"op": "newtemp"}, {"op": "callcall", "vm": 3, "name": "tf"}]
+            ops = fresh(ops)
+            t = rng.choice([0, 1, 2])
+            cases.append((mk(ops, names=FNNAMES, consts=["K"], sharedfn=["tf", "tg"]), t if any(scoped_to(t, o) for o in ops) else None))
+        for nreq in (2, 3):
+            ops = []
+            for t in range(nreq):
+                ops += [{"op": "req_begin"}] + ([{"op": "add", "vm": t, "kind": "f", "name": "tf", "file": 0, "route": "parse"}] if t != 1 else []) + \
+                       [{"op": "callcall", "vm": t, "name": "tf"}, {"op": "req_end"}]
+            cases.append((mk(fresh(ops), names=FNNAMES, consts=["K"], sharedfn=["tf", "tg"]), 0))
         # classes that only an spl autoload callback provides (composer classmap / legacy autoloader; seeded change C12-10:
         # TempVM.LoadPkg calling the callbacks on a context bound to the BASE VM): every lookup route on every VM
         CBNAMES = ["Legacy", "LegacyB", "A", "App\\P"]
@@ -554,7 +597,7 @@ def main(ck):
         nrand = 400 if ck.tier == "quick" else 12000
         for _ in range(nrand):
             c = rand_case(rng, 40)
-            ts = sorted(set(o["vm"] for o in c["ops"] if o["op"] in ("add", "goc", "goi", "pkg", "cexists", "iexists", "new", "newshort", "callfn", "newchild") and o["vm"] >= 0))
+            ts = sorted(set(o["vm"] for o in c["ops"] if o["op"] in ("add", "goc", "goi", "pkg", "cexists", "iexists", "new", "newshort", "callfn", "newchild", "callcall") and o["vm"] >= 0))
             cases.append((c, rng.choice(ts) if ts else None))
 
     # run every history, and for the chosen t the purged history, on the implementation
@@ -723,7 +766,7 @@ def main(ck):
         b = min(len(ops) // 5 * 5, 40)
         lens[str(b)] = lens.get(str(b), 0) + 1
         # non-trivial: some TempVM operation and some operation on a different VM
-        tv = set(o["vm"] for o in ops if o["op"] in ("add", "goc", "goi", "pkg", "cexists", "iexists", "new", "newshort", "callfn", "newchild"))
+        tv = set(o["vm"] for o in ops if o["op"] in ("add", "goc", "goi", "pkg", "cexists", "iexists", "new", "newshort", "callfn", "newchild", "callcall"))
         if len(tv) >= 2 and any(v >= 0 for v in tv):
             nontriv += 1
     res = {}
